@@ -14,8 +14,9 @@ Data regenerated from the current source (fail-closed `ast` walkers):
   annotation_generic_raises   whether _Visitor.generic_visit raises
   expr_kinds                  the expression node kinds of this Python's `ast`
                               (data from the running interpreter)
-  show_error_subscripts       every `lines[...]` of BaseNodeVisitor.show_error with its guard,
-  show_error_context_bounds   the bounds of the context loop, CONTEXT_LINES (pins Total/Emit.v)
+  show_error_params           CONTEXT_LINES, the extra line after, and offset / guard of the previous-line
+                              lookup of BaseNodeVisitor.show_error (translated; the shape around them is checked)
+  typeis_index                NameCheckVisitor._get_typeis_parameter's index computation as a Gallina function
 """
 from __future__ import annotations
 
@@ -193,53 +194,102 @@ def annotation_visitor(repo):
     return methods, generic_raises
 
 
-def show_error_shape(repo):
-    """Every `lines[<index>]` evaluated by BaseNodeVisitor.show_error, in source
-    order, as (index text, test of the enclosing conditional expression whose
-    body holds the subscript, or ""), the two bounds of the context loop and
-    CONTEXT_LINES.  The Emit model is written for exactly this shape."""
+def _int_const(e):
+    if isinstance(e, ast.Constant) and isinstance(e.value, int) and not isinstance(e.value, bool):
+        return e.value
+    return None
+
+
+def _lineno_minus(e, var="lineno"):
+    """`<var> - K` -> K"""
+    if isinstance(e, ast.BinOp) and isinstance(e.op, ast.Sub) and isinstance(e.left, ast.Name) and e.left.id == var:
+        return _int_const(e.right)
+    return None
+
+
+def show_error_params(repo):
+    """The constants of BaseNodeVisitor.show_error's location/context part, TRANSLATED (the
+    surrounding shape is checked, anything else fails closed):
+        this_line = lines[lineno - 1]
+        prev_line = lines[lineno - B]... if lineno >= M else ...
+        min_line = max(lineno - self.CONTEXT_LINES, 1)
+        max_line = min(lineno + self.CONTEXT_LINES + E, len(lines) + 1)
+        for i in range(min_line, max_line): ... lines[i - 1]
+    -> (CONTEXT_LINES, E, B, M)"""
     tree = _parse(repo, "node_visitor.py")
     cls = _find(tree, ast.ClassDef, "BaseNodeVisitor")
-    fn = None
-    ctx_lines = None
+    fn, ctx_lines = None, None
     for st in cls.body:
         if isinstance(st, ast.FunctionDef) and st.name == "show_error":
             fn = st
-        if isinstance(st, ast.AnnAssign) and isinstance(st.target, ast.Name) and st.target.id == "CONTEXT_LINES":
-            if isinstance(st.value, ast.Constant) and isinstance(st.value.value, int):
-                ctx_lines = st.value.value
-        if isinstance(st, ast.Assign) and len(st.targets) == 1 and isinstance(st.targets[0], ast.Name) \
-                and st.targets[0].id == "CONTEXT_LINES" and isinstance(st.value, ast.Constant):
-            ctx_lines = st.value.value
+        tgt = st.target if isinstance(st, ast.AnnAssign) else st.targets[0] if isinstance(st, ast.Assign) and len(st.targets) == 1 else None
+        if isinstance(tgt, ast.Name) and tgt.id == "CONTEXT_LINES":
+            ctx_lines = _int_const(st.value)
     if fn is None or ctx_lines is None:
         raise TranslateError("node_visitor.py: show_error / CONTEXT_LINES not found")
     parents = {}
     for n in ast.walk(fn):
         for c in ast.iter_child_nodes(n):
             parents[c] = n
-    subs = []
+    prev = None
     for n in ast.walk(fn):
-        if isinstance(n, ast.Subscript) and isinstance(n.value, ast.Name) and n.value.id == "lines" and isinstance(n.ctx, ast.Load):
-            guard = ""
-            c = n
-            while c in parents:
-                p = parents[c]
-                if isinstance(p, ast.IfExp) and p.body is c:
-                    guard = ast.unparse(p.test)
-                    break
-                if isinstance(p, ast.stmt):
-                    break
-                c = p
-            subs.append((n.lineno, n.col_offset, ast.unparse(n.slice), guard))
-    subs.sort()
-    bounds = {}
+        if not (isinstance(n, ast.Subscript) and isinstance(n.value, ast.Name) and n.value.id == "lines" and isinstance(n.ctx, ast.Load)):
+            continue
+        k = _lineno_minus(n.slice)
+        ki = _lineno_minus(n.slice, "i")
+        if ki is not None:
+            if ki != 1:
+                raise TranslateError(f"node_visitor.py:{n.lineno}: context loop reads lines[i - {ki}], expected lines[i - 1]")
+            continue
+        if k is None:
+            raise TranslateError(f"node_visitor.py:{n.lineno}: unsupported subscript of lines: {ast.unparse(n)}")
+        if k == 1:
+            continue  # this_line (also re-read by the add-ignores fixer)
+        # any other offset must be the guarded previous-line lookup
+        c, guard = n, None
+        while c in parents and not isinstance(parents[c], ast.stmt):
+            p = parents[c]
+            if isinstance(p, ast.IfExp) and p.body is c:
+                t = p.test
+                if isinstance(t, ast.Compare) and len(t.ops) == 1 and isinstance(t.ops[0], ast.GtE) \
+                        and isinstance(t.left, ast.Name) and t.left.id == "lineno":
+                    guard = _int_const(t.comparators[0])
+                break
+            c = p
+        if prev is not None:
+            raise TranslateError(f"node_visitor.py:{n.lineno}: more than one previous-line subscript")
+        if guard is None:
+            raise TranslateError(f"node_visitor.py:{n.lineno}: lines[lineno - {k}] is not guarded by `... if lineno >= M else ...`")
+        prev = (k, guard)
+    if prev is None:
+        raise TranslateError("node_visitor.py: previous-line subscript not found in show_error")
+    after = None
+    seen_min = False
     for n in ast.walk(fn):
-        if isinstance(n, ast.Assign) and len(n.targets) == 1 and isinstance(n.targets[0], ast.Name) \
-                and n.targets[0].id in ("min_line", "max_line"):
-            bounds[n.targets[0].id] = ast.unparse(n.value)
-    if set(bounds) != {"min_line", "max_line"}:
+        if isinstance(n, ast.Assign) and len(n.targets) == 1 and isinstance(n.targets[0], ast.Name):
+            v = n.value
+            if n.targets[0].id == "min_line":
+                ok = (isinstance(v, ast.Call) and _name_of(v.func) == "max" and len(v.args) == 2
+                      and ast.unparse(v.args[0]) == "lineno - self.CONTEXT_LINES" and _int_const(v.args[1]) == 1)
+                if not ok:
+                    raise TranslateError(f"node_visitor.py:{n.lineno}: min_line is not max(lineno - self.CONTEXT_LINES, 1)")
+                seen_min = True
+            if n.targets[0].id == "max_line":
+                ok = isinstance(v, ast.Call) and _name_of(v.func) == "min" and len(v.args) == 2 and ast.unparse(v.args[1]) == "len(lines) + 1"
+                a0 = v.args[0] if ok else None
+                if ok and isinstance(a0, ast.BinOp) and isinstance(a0.op, ast.Add) and ast.unparse(a0.left) == "lineno + self.CONTEXT_LINES":
+                    after = _int_const(a0.right)
+                elif ok and ast.unparse(a0) == "lineno + self.CONTEXT_LINES":
+                    after = 0
+                if after is None:
+                    raise TranslateError(f"node_visitor.py:{n.lineno}: max_line is not min(lineno + self.CONTEXT_LINES + E, len(lines) + 1)")
+    if not seen_min or after is None:
         raise TranslateError("node_visitor.py: context loop bounds not found")
-    return [(i, g) for _, _, i, g in subs], (bounds["min_line"], bounds["max_line"]), ctx_lines
+    return ctx_lines, after, prev[0], prev[1]
+
+
+def _name_of(e):
+    return e.id if isinstance(e, ast.Name) else e.attr if isinstance(e, ast.Attribute) else None
 
 
 def _enum_tests(test):
@@ -358,6 +408,92 @@ def bound_chain(repo):
     return handled, family
 
 
+# ---------------------------------------------------------------------------
+# NameCheckVisitor._get_typeis_parameter: the computation of the parameter index and its
+# guard are TRANSLATED (statement by statement) into a Gallina function, so that a
+# behaviour-preserving rewrite re-proves and a wrong guard does not.
+
+
+def _ti_cond(e, env):
+    """Python condition -> Gallina bool over cm, im (is_classmethod / is_instancemethod) and n = len(info.params)"""
+    if isinstance(e, ast.BoolOp):
+        op = "||" if isinstance(e.op, ast.Or) else "&&"
+        return "(" + f" {op} ".join(_ti_cond(v, env) for v in e.values) + ")"
+    if isinstance(e, ast.UnaryOp) and isinstance(e.op, ast.Not):
+        return f"(negb {_ti_cond(e.operand, env)})"
+    if isinstance(e, ast.Attribute) and isinstance(e.value, ast.Name) and e.value.id == "info":
+        if e.attr == "is_classmethod":
+            return "cm"
+        if e.attr == "is_instancemethod":
+            return "im"
+        if e.attr == "params":
+            return "(negb (n =? 0))"
+    if isinstance(e, ast.Compare) and len(e.ops) == 1:
+        a, b = _ti_nat(e.left, env), _ti_nat(e.comparators[0], env)
+        op = e.ops[0]
+        if isinstance(op, ast.LtE):
+            return f"({a} <=? {b})"
+        if isinstance(op, ast.Lt):
+            return f"({a} <? {b})"
+        if isinstance(op, ast.GtE):
+            return f"({b} <=? {a})"
+        if isinstance(op, ast.Gt):
+            return f"({b} <? {a})"
+        if isinstance(op, ast.Eq):
+            return f"({a} =? {b})"
+        if isinstance(op, ast.NotEq):
+            return f"(negb ({a} =? {b}))"
+    raise TranslateError(f"name_check_visitor.py:{getattr(e, 'lineno', '?')}: unsupported condition in _get_typeis_parameter: {ast.unparse(e)}")
+
+
+def _ti_nat(e, env):
+    if isinstance(e, ast.Constant) and isinstance(e.value, int) and not isinstance(e.value, bool) and e.value >= 0:
+        return str(e.value)
+    if isinstance(e, ast.Name) and e.id in env:
+        return env[e.id]
+    if isinstance(e, ast.IfExp):
+        return f"(if {_ti_cond(e.test, env)} then {_ti_nat(e.body, env)} else {_ti_nat(e.orelse, env)})"
+    if isinstance(e, ast.Call) and isinstance(e.func, ast.Name) and e.func.id == "len" and len(e.args) == 1 \
+            and ast.unparse(e.args[0]) == "info.params":
+        return "n"
+    if isinstance(e, ast.BinOp) and isinstance(e.op, ast.Add):
+        return f"({_ti_nat(e.left, env)} + {_ti_nat(e.right, env)})"
+    raise TranslateError(f"name_check_visitor.py:{getattr(e, 'lineno', '?')}: unsupported index expression in _get_typeis_parameter: {ast.unparse(e)}")
+
+
+def typeis_index(repo):
+    tree = _parse(repo, "name_check_visitor.py")
+    fn = _find(tree, ast.FunctionDef, "_get_typeis_parameter")
+    env, guards = {}, []
+    for st in fn.body:
+        if isinstance(st, ast.Expr) and isinstance(st.value, ast.Constant):
+            continue
+        subs = [n for n in ast.walk(st) if isinstance(n, ast.Subscript) and ast.unparse(n.value) == "info.params"]
+        if subs:
+            if len({ast.unparse(x.slice) for x in subs}) != 1:
+                raise TranslateError("name_check_visitor.py: several different subscripts of info.params")
+            idx = _ti_nat(subs[0].slice, env)
+            body = f"Some {idx}"
+            for g in reversed(guards):
+                body = f"if {g} then None else {body}"
+            return f"Definition typeis_index (cm im : bool) (n : nat) : option nat :=\n  {body}.\n"
+        if isinstance(st, ast.Assign) and len(st.targets) == 1 and isinstance(st.targets[0], ast.Name):
+            env[st.targets[0].id] = _ti_nat(st.value, env)
+        elif isinstance(st, ast.If) and not st.orelse and len(st.body) == 1:
+            c = _ti_cond(st.test, env)
+            b = st.body[0]
+            if isinstance(b, ast.Return) and (b.value is None or (isinstance(b.value, ast.Constant) and b.value.value is None)):
+                guards.append(c)
+            elif isinstance(b, ast.Assign) and len(b.targets) == 1 and isinstance(b.targets[0], ast.Name) and b.targets[0].id in env:
+                v = b.targets[0].id
+                env[v] = f"(if {c} then {_ti_nat(b.value, env)} else {env[v]})"
+            else:
+                raise TranslateError(f"name_check_visitor.py:{st.lineno}: unsupported statement in _get_typeis_parameter")
+        else:
+            raise TranslateError(f"name_check_visitor.py:{st.lineno}: unsupported statement in _get_typeis_parameter")
+    raise TranslateError("name_check_visitor.py: _get_typeis_parameter never subscripts info.params")
+
+
 def expr_kinds():
     return sorted(c.__name__ for c in ast.expr.__subclasses__())
 
@@ -375,16 +511,17 @@ def translate(repo: str) -> str:
     h = value_hierarchy(repo)
     unwrapped, handled, else_raises = boolability_chain(repo)
     methods, generic_raises = annotation_visitor(repo)
-    subs, bounds, ctx_lines = show_error_shape(repo)
+    se_c, se_e, se_b, se_m = show_error_params(repo)
     chains, enums = enum_chains(repo)
     bhandled, bfamily = bound_chain(repo)
     chain_rows = ";\n".join(f"  ({_s(f)}, {_s(fn)}, {_s(subj)}, {_s(e)}, {_sl(ms)})" for f, fn, subj, e, ms in chains)
     enum_rows = "; ".join(f"({_s(e)}, {_sl(ms)})" for e, ms in enums)
-    sub_rows = "; ".join(f"({_s(i)}, {_s(g)})" for i, g in subs)
     rows = ";\n".join(f"  ({_s(c)}, {_sl(a)})" for c, a in h)
     return (
         "(* GENERATED by harness/translate/total.py from pyanalyze/{error_code,value,boolability,annotations}.py -- do not edit *)\n"
-        "From Coq Require Import String List Bool.\nRequire Import PV.Total.Dispatch.\nImport ListNotations.\nOpen Scope string_scope.\n\n"
+        "From Coq Require Import String List Bool Arith ZArith.\nRequire Import PV.Total.Dispatch PV.Total.Emit.\nImport ListNotations.\n\n"
+        "(* translated from NameCheckVisitor._get_typeis_parameter: None = returns before info.params[...] *)\n"
+        "Open Scope nat_scope.\n" + typeis_index(repo) + "\nOpen Scope string_scope.\n\n"
         f"Definition registered_codes : list string := {_sl(codes)}%list.\n\n"
         f"Definition value_hierarchy : hierarchy := [\n{rows}\n]%list.\n\n"
         f"Definition boolability_unwrapped : list string := {_sl(unwrapped)}%list.\n"
@@ -393,9 +530,8 @@ def translate(repo: str) -> str:
         f"Definition annotation_visitor_methods : list string := {_sl(methods)}%list.\n"
         f"Definition annotation_generic_raises : bool := {'true' if generic_raises else 'false'}.\n"
         f"Definition expr_kinds : list string := {_sl(expr_kinds())}%list.\n\n"
-        f"Definition show_error_subscripts : list (string * string) := [{sub_rows}]%list.\n"
-        f"Definition show_error_context_bounds : string * string := ({_s(bounds[0])}, {_s(bounds[1])}).\n"
-        f"Definition show_error_context_lines : nat := {ctx_lines}.\n\n"
+        f"Definition show_error_params : emit_params :=\n"
+        f"  {{| ep_context := {se_c}%Z; ep_after_extra := {se_e}%Z; ep_prev_off := {se_b}%Z; ep_prev_min := {se_m}%Z |}}.\n\n"
         f"Definition enum_members : list (string * list string) := [{enum_rows}]%list.\n"
         f"Definition enum_chains : list (string * string * string * string * list string) := [\n{chain_rows}\n]%list.\n"
         f"Definition bound_chain_handled : list string := {_sl(bhandled)}%list.\n"
